@@ -4,7 +4,7 @@ import GcArena.Generated.PacingConsts
 
 `Pacing.default`, `Pacing.stopTheWorld` and `Metrics.new` of `Model/Metrics.lean` are written by
 hand after `Pacing::DEFAULT`, `Pacing::STOP_THE_WORLD`, `impl Default for Pacing` and
-`Metrics::new` / `#[derive(Default)] MetricsInner` of src/metrics.rs, and the collector harness
+`Metrics::new` / the `Default` derives behind it in src/metrics.rs, and the collector harness
 never observes them (it always installs a dyadic pacing).  `GcArena/Generated/PacingConsts.lean` is
 regenerated from the current source on every check run (`/verif/extract`, `src/pacing.rs`): the
 field initialisers of both constants parsed from the decimal literals as **exact rationals**
@@ -32,7 +32,21 @@ theorem default_impl_is_default :
     Generated.defaultImplConst = "DEFAULT" ∧ Generated.pacingOfDefaultImpl = Pacing.default := by
   decide +kernel
 
-/-- `Metrics::new()` gives every counter zero and the default pacing, as `Metrics.new` does. -/
-theorem metrics_new_matches_source : Generated.metricsNew = Metrics.new := by decide +kernel
+/-- `Metrics::new()` in the source, evaluated structurally (every numeric state cell, however the
+cells are grouped into private structs): each starts at zero, and the one `Pacing` cell starts at
+what `<Pacing as Default>::default()` returns — which is what the model's `Metrics.new` says: the
+default pacing and zero in every counter. -/
+theorem metrics_new_matches_source :
+    Generated.metricsNewCells.all (fun c => c.2 = 0) = true ∧
+    Generated.metricsNewPacings.map (·.2) = [Metrics.new.pacing] ∧
+    Metrics.new = { pacing := Pacing.default, totalGcs := 0, wakeup := 0, artificial := 0, allocated := 0,
+                    dropped := 0, freed := 0, marked := 0, traced := 0, remembered := 0, underflow := false } := by
+  decide +kernel
+
+/-- Lower bounds (a translator that silently drops rows cannot make the theorems above vacuous):
+the model's nine numeric counters each have a source cell, there is exactly one pacing cell, and both
+constants have the seven pacing fields (a record equality — nothing can be dropped there). -/
+theorem required_metrics_cells :
+    Generated.metricsNewCells.length ≥ 9 ∧ Generated.metricsNewPacings.length = 1 := by decide
 
 end GcArena.C09s
